@@ -563,3 +563,71 @@ class ReplaceValues(FunctionContract):
 
 
 CONTRACTS.append(ReplaceValues())
+
+
+class SizeAndValues(FunctionContract):
+    """`size` is (number of variables) x (number of periods) for every container; `values` stacks the series in declaration order (index for a
+    plain container, names for a model), one row per variable, each series read exactly once."""
+    props = ('C09',)
+
+    def __init__(self, which, what):
+        self.which, self.what = which, what
+        base = {'container': 'fsic.core.containers.VectorContainer', 'model': 'fsic.core.interfaces.ModelInterface'}[which]
+        self.qualname = f'{base}.{what}'
+
+    def setup(self, interp, scenario):
+        import numpy as np
+        import pyvc.libspec as L
+        from fsic.core.interfaces import ModelInterface
+        ctx = interp.ctx
+        e = {'reads': [], 'stacked': []}
+        if self.what == 'size':
+            obj = make(interp, e)
+            if self.which == 'model':
+                obj.fields['names'] = obj.fields['index']
+            e['inputs'] = {'n': e['n'], 'm': e['m']}
+            return Call([], {}, self_obj=obj, entry=e)
+        names = ['B', 'A', 'C']
+        cls = VectorContainer if self.which == 'container' else type('M', (ModelInterface, VectorContainer), {})
+        # the other list is deliberately in another order: a model's `values` follows `names`, a container's follows `index`
+        obj = SObj(cls, {'index': list(names) if self.which == 'container' else ['A', 'B', 'C'], 'names': list(names) if self.which == 'model' else ['C', 'B', 'A'],
+                         'span': [1, 2]}, label='c')
+        e['names'] = names
+        series = {k: ('series', k) for k in names}
+        orig_getattr = interp.getattr
+
+        def patched_getattr(o, name, node=None):
+            if o is obj and name == '__getattribute__':
+                class G:
+                    def vc_call(self_, interp_, args, kwargs, node_):
+                        key = args[0]
+                        e['reads'].append(key)
+                        return series[key[1:]]
+                return G()
+            return orig_getattr(o, name, node)
+        interp.getattr = patched_getattr
+
+        def array(interp_, args, kwargs, node):
+            e['stacked'].append(list(args[0]))
+            e['result'] = ('stack', len(e['stacked']))
+            return e['result']
+        array.always = True
+        L._MODELS[np.array] = array
+        e['inputs'] = {}
+        return Call([], {}, self_obj=obj, entry=e)
+
+    def post(self, interp, scenario, call, out):
+        ctx = interp.ctx
+        e = call.entry
+        if out.kind == 'raise':
+            ctx.prove(False, 'does_not_raise', 'raises')
+            return
+        if self.what == 'size':
+            ctx.prove(V.to_int_term(out.value) == e['m'] * e['n'], 'size_is_the_number_of_variables_times_the_number_of_periods', 'ensures')
+            return
+        ctx.prove(z3.BoolVal(e['reads'] == ['_' + k for k in e['names']]), 'each_series_read_exactly_once_in_declaration_order', 'ensures', note=str(e['reads']))
+        ctx.prove(z3.BoolVal(len(e['stacked']) == 1 and e['stacked'][0] == [('series', k) for k in e['names']] and out.value is e.get('result')),
+                  'values_is_the_stack_of_the_series_in_declaration_order', 'ensures')
+
+
+CONTRACTS += [SizeAndValues('container', 'size'), SizeAndValues('model', 'size'), SizeAndValues('container', 'values'), SizeAndValues('model', 'values')]
